@@ -1,4 +1,7 @@
 """C11 — JSON and msgpack encodings round-trip and are well-formed."""
+import struct
+from fractions import Fraction
+
 from .common import Check, iter_joined
 
 
@@ -9,6 +12,38 @@ def kv(s):
             k, v = f.split("=", 1)
             d[k] = v
     return d
+
+
+def num(tok):
+    """exact value of an observed number: I<integer> or D<float64 bits>; None otherwise"""
+    try:
+        if tok[:1] == "I":
+            return Fraction(int(tok[1:]))
+        if tok[:1] == "D" and tok != "Dnan":
+            f = struct.unpack(">d", struct.pack(">Q", int(tok[1:])))[0]
+            if f != f or f in (float("inf"), float("-inf")):
+                return None
+            return Fraction(f)
+    except (ValueError, struct.error, OverflowError):
+        return None
+    return None
+
+
+def same_by_value(a, b):
+    """equal observations, numbers compared by value (1 and 1.0 are the same number)"""
+    if a == b:
+        return True
+    if a is None or b is None:
+        return False
+    ta, tb = a.split(" "), b.split(" ")
+    if len(ta) != len(tb):
+        return False
+    for x, y in zip(ta, tb):
+        if x != y:
+            nx, ny = num(x), num(y)
+            if nx is None or ny is None or nx != ny:
+                return False
+    return True
 
 
 def text(hexs):
@@ -61,12 +96,12 @@ def main(argv):
                 # (ii) well-formed and denotes the same data, for every value the interpreter can hold
                 if im.get("json") == "ERR":
                     bad = ("(json v) fails", "ERR", "a JSON text")
-                elif im.get("std") != sp.get("tree"):
-                    bad = ("tree read from (json v) by encoding/json", im.get("std"), sp.get("tree"))
+                elif not same_by_value(im.get("stdv"), sp.get("tree")):
+                    bad = ("tree read from (json v) by encoding/json (numbers by value)", im.get("stdv"), sp.get("tree"))
                 # (iii) round trips, on the domain of the property text
                 elif "data" in flags:
                     for ob in ("unjson", "unmsgpack"):
-                        if im.get(ob) != sp.get("back"):
+                        if not same_by_value(im.get(ob), sp.get("back")):
                             bad = ("(%s (%s v))" % (ob, ob[2:]), im.get(ob), sp.get("back"))
                             break
                     if bad is None and im.get("codec") != "1":
@@ -85,9 +120,9 @@ def main(argv):
                 if im.get("json") != mo.get("json"):
                     corr_fail.append({"input": inp, "observable": "bytes of (json v) vs to_json", "implementation": jt,
                                       "model": text(mo.get("json", ""))})
-                elif mo.get("parse") != sp.get("tree"):
-                    corr_fail.append({"input": inp, "observable": "json_parse (to_json v) vs tree_of v (theorem json_wellformed)",
-                                      "model": mo.get("parse"), "specification": sp.get("tree")})
+                elif mo.get("parse") != im.get("std"):
+                    corr_fail.append({"input": inp, "observable": "the extracted json_parse and encoding/json read the same text differently",
+                                      "model": mo.get("parse"), "implementation": im.get("std"), "json_text": jt})
                 elif "dupnames" not in flags and "wf" in flags:
                     for ob in ("unjson", "unmsgpack"):
                         if im.get(ob) != mo.get("unjson"):
